@@ -195,8 +195,19 @@ func runCheck(id string, pc propCfg, tier, replay string, seed uint64, scale str
 	}
 
 	// ---- build from /repo's current working tree ----
+	// (VERIF_REPO=<dir> points the build at a scratch worktree instead; used
+	// for sensitivity experiments only, never by the registered commands.)
 	bin := filepath.Join(work, id+".test")
 	args := []string{"test", "-c", "-tags", "verif", "-o", bin}
+	if alt := os.Getenv("VERIF_REPO"); alt != "" && alt != "/repo" {
+		mf, err := altModfile(harness, work, alt)
+		if err != nil {
+			fmt.Printf("check %s: cannot prepare alternative module file: %v\n", id, err)
+			return 2
+		}
+		args = append(args, "-modfile", mf)
+		fmt.Printf("check %s: building against %s\n", id, alt)
+	}
 	if pc.Race {
 		args = append(args, "-race")
 	}
@@ -310,6 +321,22 @@ func writeGoSum(harness string) error {
 		return nil
 	}
 	return os.WriteFile(filepath.Join(harness, "go.sum"), data, 0o644)
+}
+
+// altModfile writes a copy of go.mod/go.sum whose replace directives point
+// at another checkout of the repository.
+func altModfile(harness, work, alt string) (string, error) {
+	b, err := os.ReadFile(filepath.Join(harness, "go.mod"))
+	if err != nil {
+		return "", err
+	}
+	nb := strings.ReplaceAll(string(b), "=> /repo", "=> "+alt)
+	mf := filepath.Join(work, "alt.mod")
+	if err := os.WriteFile(mf, []byte(nb), 0o644); err != nil {
+		return "", err
+	}
+	sum, _ := os.ReadFile(filepath.Join(harness, "go.sum"))
+	return mf, os.WriteFile(filepath.Join(work, "alt.sum"), sum, 0o644)
 }
 
 func runChild(bin, cwd, dir string, env []string, capDur time.Duration, shard int, args ...string) shardResult {
